@@ -337,6 +337,24 @@ def g3(ctx):
         if c.callee and c.callee.name in ("map_or", "unwrap_or") and len(c.args) >= 2 and cnt.role_of_operand(c.args[1]) == ("const", "1_usize") and role_mentions_field(cnt.role_of_operand(c.args[0]), "next"):
             base = True
     ctx.check(base, "count-base", "the trivial group has count 1", "count() of the trivial group is not 1", where_of(cnt))
+    # ... and nothing else: every value count() can return is the constant 1 of the trivial group or the product — no "small
+    # orbit => small group" shortcut (an orbit of size 2 at the first level says nothing about the stabiliser: Z2 x Z2)
+    odd = []
+    for sub in cnt.all_bodies():
+        for d_ in sub.defs().get(0, []):
+            if d_["kind"] != "assign":
+                continue
+            rv = d_["rv"]
+            r_ = sub.role_of_rvalue(rv)
+            if r_ == ("const", "1_usize"):
+                continue
+            if rv["k"] == "use" and rv["op"].get("k") == "const":
+                odd.append(role_str(r_))
+            elif rv["k"] == "use":
+                sr = strip_role(r_)
+                if isinstance(sr, tuple) and sr[0] == "const" and sr != ("const", "1_usize"):
+                    odd.append(role_str(sr))
+    ctx.check(not odd, "count-no-shortcut", "count() returns only 1 (trivial group) or orbit size x stabiliser count", "count() can return the constant %s without multiplying the orbit size with the stabiliser's count: the order of a group whose first orbit is small is not determined by that orbit (Z2 x Z2 has a first orbit of size 2 and four elements) — the symmetry total in the progress measure is then wrong and a round that only adds an independent symmetry counts as 'nothing changed'" % odd, where_of(cnt))
     orb = fn(crate, "orbit", GRP)
     bo = [c for c in orb.calls if c.callee and c.callee.name == "build_ot"]
     okb = False
